@@ -16,3 +16,10 @@ PROP = {
         "constructor argument conversion/clamping (which Go value denotes which element) is C16's subject; here every argument denotes its element exactly",
     ],
 }
+
+
+MANIFEST = {
+    "text": 'Coq theorems over all well-formed item trees (every type, counts to 2^24-1, nesting to 64): encode x is the canonical SEMI E5 encoding (grammar as an inductive relation; minimal length-byte count proved for all n), its length is EncodedLen, decode(encode x ++ rest) = (x, rest), encoding is a function, AppendTo(dst) = dst ++ encode x (prefix untouched); extended to trees containing decoded items that re-emit their retained bytes. Format codes, size/depth caps and headerLen are regenerated from the source and bridged each run; each generated tree is built through the PUBLIC constructors with varied argument shapes and ToBytes/EncodedLen/AppendTo/Decode/DecodeOwned/Equal/accessors are compared with the extracted model.',
+    "note": "wf excludes an EmptyItem below the root: refuted there by a witness (C01_empty_child_refuted; known finding C01-empty-child: L(NewEmptyItem()) is error-free but encodes to 01 01 which Decode rejects). F4 binary64->binary32 rounding and NaN quieting are Go conversions outside the model (taken from Go in the harness); argument clamping is C16's.",
+    "technique": 'Rocq/Coq proof (rose-tree induction, E5 grammar relation) + translator bridge + extracted-model differential through the public constructors',
+}
